@@ -14,8 +14,9 @@ Reads the x86-64 FIBER_FAST_SWITCHING branch of $VERIF_REPO/src/fiber_context.c
     `*--ctx_stack_pointer = ...` pushes / bare decrements (init_pushes).
 
 It ABORTS (exit status 3, message on stderr) on any instruction, operand form,
-constraint, clobber or init statement that it does not recognise.  It never
-guesses.  The output is deterministic (no timestamps, no absolute paths) and is
+constraint, clobber or init statement that it does not recognise, and removes
+the previously generated file (a stale model must not be mistaken for the
+current source).  It never guesses.  The output is deterministic (no timestamps, no absolute paths) and is
 only rewritten when its content changes.
 
 usage: gen_ctx.py [--out FILE | --stdout] [--encoding]
@@ -724,11 +725,17 @@ def main(argv):
             return 2
     try:
         init, swap = translate()
-    except Reject as e:
-        sys.stderr.write("gen_ctx: REJECTED %s: %s\n" % (SRC, e))
-        return 3
-    except (IndexError, KeyError) as e:   # malformed input that slipped past a check
-        sys.stderr.write("gen_ctx: REJECTED %s: malformed construct (%r)\n" % (SRC, e))
+    except (Reject, IndexError, KeyError) as e:
+        what = str(e) if isinstance(e, Reject) else "malformed construct (%r)" % (e,)
+        sys.stderr.write("gen_ctx: REJECTED %s: %s\n" % (SRC, what))
+        if not (to_stdout or want_encoding):
+            # no model of the current source exists: do not leave a stale one behind
+            for stale in (out, out + "o", out + "os", out + "ok", out[:-2] + ".glob"):
+                try:
+                    os.remove(stale)
+                except OSError:
+                    pass
+            sys.stderr.write("gen_ctx: removed %s (it described an earlier version of the source)\n" % out)
         return 3
     if want_encoding:
         print(" ".join(str(x) for x in encoding(init, swap)))
